@@ -48,6 +48,8 @@ func main() {
 		runProgramFile(*arg, *seed)
 	case "replayconc":
 		replayConcFile(*arg)
+	case "genparse":
+		runGenParse(*arg)
 	case "replay":
 		replayFile(*arg)
 	default:
